@@ -382,43 +382,50 @@ Section Models.
   Definition mtrace_ok (t : list (mop * mout)) : bool := mtrace_ok_from [] t.
 
   (* -------------------------------------------------------------------------------------- *)
-  (* Concurrency: the singleflight group "FindLatestAuthorizationModel:"+store of the         *)
-  (* resolver (and of cachedOpenFGADatastore).  A model-less request that starts while a call *)
-  (* for its store is in flight does not query the datastore: it waits for, and uses, the     *)
-  (* value of the call already in flight.                                                     *)
+  (* Concurrency: the singleflight group of the latest-model lookup in the resolver (and in   *)
+  (* cachedOpenFGADatastore): lookupGroup.Do("FindLatestAuthorizationModel:"+storeID, ...).   *)
+  (* A model-less request that starts while a call with ITS KEY is in flight does not query   *)
+  (* the datastore: it waits for, and uses, the value of the call already in flight.  The key *)
+  (* computed from the store id is explicit ([fkey]) because isolation between stores rests    *)
+  (* on it.                                                                                    *)
+
+  Variable fkey : bytes -> bytes.      (* store id -> singleflight key *)
 
   Inductive cev :=
   | CWrite (s : bytes) (m : model)     (* a WriteAuthorizationModel for store s has completed *)
-  | CBegin (r : N) (s : bytes)         (* model-less request r starts its latest-model lookup *)
-  | CEnd (s : bytes).                  (* the in-flight call of store s returns *)
+  | CBegin (r : N) (s : bytes)         (* model-less request r for store s starts its latest-model lookup *)
+  | CEnd (s : bytes).                  (* the in-flight call with the key of store s returns *)
 
   Record flight := mkFlight {
-    fl_store : bytes;
+    fl_key : bytes;                               (* the singleflight key *)
+    fl_store : bytes;                             (* the store the leader queries the datastore for *)
     fl_value : option model;                      (* what the leader's datastore query returns *)
-    fl_waiters : list (N * option model * bool)   (* request, latest model at ITS start, joined? *)
+    fl_waiters : list ((N * bytes) * option model * bool)
+                                                  (* (request, its store), latest model of ITS store at ITS start, joined? *)
   }.
 
   Record cstate := mkC {
     c_latest : list (bytes * model);              (* store -> latest model *)
     c_flights : list flight;
-    c_done : list (N * option model * option model * bool)  (* request, latest at start, served, joined? *)
+    c_done : list (((N * bytes) * bytes) * option model * option model * bool)
+      (* ((request, its store), store the serving lookup was made for), latest at start, served, joined? *)
   }.
   Definition cinit : cstate := mkC [] [] [].
 
-  Fixpoint find_flight (s : bytes) (fs : list flight) : option flight :=
+  Fixpoint find_flight (k : bytes) (fs : list flight) : option flight :=
     match fs with
     | [] => None
-    | f :: r => if beqb (fl_store f) s then Some f else find_flight s r
+    | f :: r => if beqb (fl_key f) k then Some f else find_flight k r
     end.
-  Fixpoint remove_flight (s : bytes) (fs : list flight) : list flight :=
+  Fixpoint remove_flight (k : bytes) (fs : list flight) : list flight :=
     match fs with
     | [] => []
-    | f :: r => if beqb (fl_store f) s then r else f :: remove_flight s r
+    | f :: r => if beqb (fl_key f) k then r else f :: remove_flight k r
     end.
   Fixpoint replace_flight (f' : flight) (fs : list flight) : list flight :=
     match fs with
     | [] => []
-    | f :: r => if beqb (fl_store f) (fl_store f') then f' :: r else f :: replace_flight f' r
+    | f :: r => if beqb (fl_key f) (fl_key f') then f' :: r else f :: replace_flight f' r
     end.
 
   Definition cstep (st : cstate) (e : cev) : cstate :=
@@ -426,18 +433,20 @@ Section Models.
     | CWrite s m => mkC (aupsert beqb s m (c_latest st)) (c_flights st) (c_done st)
     | CBegin r s =>
       let now := alookup beqb s (c_latest st) in
-      match find_flight s (c_flights st) with
-      | None =>      (* leader: the datastore query is issued now *)
-        mkC (c_latest st) (mkFlight s now [(r, now, false)] :: c_flights st) (c_done st)
-      | Some f =>    (* follower: joins the call in flight *)
-        mkC (c_latest st) (replace_flight (mkFlight s (fl_value f) ((r, now, true) :: fl_waiters f)) (c_flights st)) (c_done st)
+      match find_flight (fkey s) (c_flights st) with
+      | None =>      (* leader: the datastore query for store s is issued now *)
+        mkC (c_latest st) (mkFlight (fkey s) s now [((r, s), now, false)] :: c_flights st) (c_done st)
+      | Some f =>    (* follower: joins the call in flight under this key *)
+        mkC (c_latest st)
+            (replace_flight (mkFlight (fl_key f) (fl_store f) (fl_value f) (((r, s), now, true) :: fl_waiters f)) (c_flights st))
+            (c_done st)
       end
     | CEnd s =>
-      match find_flight s (c_flights st) with
+      match find_flight (fkey s) (c_flights st) with
       | None => st
       | Some f =>
-        mkC (c_latest st) (remove_flight s (c_flights st))
-            (map (fun w => (fst (fst w), snd (fst w), fl_value f, snd w)) (fl_waiters f) ++ c_done st)
+        mkC (c_latest st) (remove_flight (fkey s) (c_flights st))
+            (map (fun w => ((fst (fst w), fl_store f), snd (fst w), fl_value f, snd w)) (fl_waiters f) ++ c_done st)
       end
     end.
 
@@ -457,6 +466,9 @@ Section Models.
     forallb (fun d => snd d || fresh_enough (snd (fst (fst d))) (snd (fst d))) (c_done st).
   (* trigger flag: some request joined a call that was in flight *)
   Definition some_joined (st : cstate) : bool := existsb (fun d => snd d) (c_done st).
+  (* isolation: every request was served by a lookup made for its own store *)
+  Definition all_own_store (st : cstate) : bool :=
+    forallb (fun d => beqb (snd (fst (fst (fst (fst d))))) (snd (fst (fst (fst d))))) (c_done st).
 End Models.
 
 (* ------------------------------------------------------------------------------------------ *)
@@ -519,7 +531,15 @@ Definition t_trace_ok (t : list (mop tbody * mout tbody)) := mtrace_ok tbody tb_
 Definition t_ids_increasing (h : list (mop tbody)) := ids_increasing tbody h.
 Definition t_mem_btrace (h : list (bop tbody)) := btrace tbody t_mem (mb_init tbody t_mem) h.
 Definition t_sql_btrace (h : list (bop tbody)) := btrace tbody t_sql (mb_init tbody t_sql) h.
-Definition t_crun (h : list (cev tbody)) := crun tbody h.
+(* the key as coded: "FindLatestAuthorizationModel:" + storeID *)
+Definition lookup_prefix : bytes :=
+  [70; 105; 110; 100; 76; 97; 116; 101; 115; 116; 65; 117; 116; 104; 111; 114; 105; 122; 97; 116; 105; 111; 110; 77; 111; 100; 101; 108; 58].
+Definition lookup_key (s : bytes) : bytes := lookup_prefix ++ s.
+(* a key that omits the store id *)
+Definition lookup_key_no_store (_ : bytes) : bytes := lookup_prefix.
+Definition t_crun (h : list (cev tbody)) := crun tbody lookup_key h.
+Definition t_crun_no_store (h : list (cev tbody)) := crun tbody lookup_key_no_store h.
+Definition t_all_own_store (st : cstate tbody) := all_own_store tbody st.
 Definition t_all_fresh (st : cstate tbody) := all_fresh tbody st.
 Definition t_leaders_fresh (st : cstate tbody) := leaders_fresh tbody st.
 Definition t_some_joined (st : cstate tbody) := some_joined tbody st.
